@@ -22,6 +22,10 @@ static std::vector<int64_t> build_lattice()
   for(int64_t c : { PHI, PHI2, (int64_t)51472, TWO_PHI, (int64_t)411775, (int64_t)617662, (int64_t)68629, (int64_t)32768, (int64_t)39321, (int64_t)39322, (int64_t)28672, (int64_t)45056, (int64_t)77824, (int64_t)159744, (int64_t)57738456761160ll })
     for(int j = -1; j <= 1; ++j) pm(c + j);
   pm(3 * (i128)PHI2); pm(3 * (i128)PHI2 + 1); pm(5 * (i128)PHI2);
+  // classic bit patterns (repeating bytes / nibbles, alternating bits, counting nibbles) and their neighbours
+  for(uint64_t u : { 0x0101010101010101ull, 0x0f0f0f0f0f0f0f0full, 0x3333333333333333ull, 0x5555555555555555ull, 0x00ff00ff00ff00ffull, 0x0000ffff0000ffffull,
+                     0x0123456789abcdefull, 0x7f7f7f7f7f7f7f7full, 0x1111111111111111ull, 0x2aaaaaaaaaaaaaaaull, 0x6666666666666666ull })
+    for(int j = -2; j <= 2; ++j) { pm((i128)(int64_t)u + j); add((i128)(int64_t)~u + j); }
   return std::vector<int64_t>(s.begin(), s.end());
   }
 const std::vector<int64_t> & lattice() { static std::vector<int64_t> l = build_lattice(); return l; }
@@ -43,10 +47,11 @@ std::vector<int64_t> lattice_with(std::initializer_list<int64_t> extra)
   return l;
   }
 
-const IntType INT_TYPES[8] = {
+const IntType INT_TYPES[N_INT] = {
   { "i8", true, 8, -128, 127 }, { "i16", true, 16, -32768, 32767 }, { "i32", true, 32, -(i128)2147483648ll, 2147483647 },
   { "i64", true, 64, (i128)INT64_MIN, (i128)INT64_MAX },
-  { "u8", false, 8, 0, 255 }, { "u16", false, 16, 0, 65535 }, { "u32", false, 32, 0, 4294967295ll }, { "u64", false, 64, 0, (i128)UINT64_MAX } };
+  { "u8", false, 8, 0, 255 }, { "u16", false, 16, 0, 65535 }, { "u32", false, 32, 0, 4294967295ll }, { "u64", false, 64, 0, (i128)UINT64_MAX },
+  { "ll", true, 64, (i128)INT64_MIN, (i128)INT64_MAX }, { "ull", false, 64, 0, (i128)UINT64_MAX } };
 
 int64_t random_of_type(Rng & r, const IntType & t)
   {
@@ -70,12 +75,12 @@ static bool starts(const std::string & s, const char * p) { return s.rfind(p, 0)
 static bool ends(const std::string & s, const char * p) { size_t n = strlen(p); return s.size() >= n && s.compare(s.size() - n, n, p) == 0; }
 static Kind kind_of_tag(const std::string & t)
   {
-  static const std::map<std::string, Kind> m = { { "i8", K_I8 }, { "i16", K_I16 }, { "i32", K_I32 }, { "i64", K_I64 }, { "u8", K_U8 }, { "u16", K_U16 }, { "u32", K_U32 }, { "u64", K_U64 }, { "f32", K_F32 }, { "f64", K_F64 }, { "fix", K_FIX } };
+  static const std::map<std::string, Kind> m = { { "i8", K_I8 }, { "i16", K_I16 }, { "i32", K_I32 }, { "i64", K_I64 }, { "u8", K_U8 }, { "u16", K_U16 }, { "u32", K_U32 }, { "u64", K_U64 }, { "ll", K_LL }, { "ull", K_ULL }, { "f32", K_F32 }, { "f64", K_F64 }, { "fix", K_FIX } };
   auto it = m.find(t); return it == m.end() ? K_NONE : it->second;
   }
 const char * kind_name(Kind k)
   {
-  static const char * n[] = { "none", "fixed", "int8", "int16", "int32", "int64", "uint8", "uint16", "uint32", "uint64", "float-bits", "double-bits", "shift-count", "int32-angle", "index<=360", "index<=255", "count<=64" };
+  static const char * n[] = { "none", "fixed", "int8", "int16", "int32", "int64", "uint8", "uint16", "uint32", "uint64", "long-long", "unsigned-long-long", "float-bits", "double-bits", "shift-count", "int32-angle", "index<=360", "index<=255", "count<=64" };
   return n[k];
   }
 bool entry_domain(const std::string & n, Domain & d)
@@ -111,7 +116,7 @@ bool entry_domain(const std::string & n, Domain & d)
     }
   return false;
   }
-static const IntType * inttype_of(Kind k) { return (k >= K_I8 && k <= K_U64) ? &INT_TYPES[k - K_I8] : nullptr; }
+static const IntType * inttype_of(Kind k) { return (k >= K_I8 && k <= K_ULL) ? &INT_TYPES[k - K_I8] : nullptr; }
 const std::vector<int64_t> & boundary(Kind k)
   {
   static std::map<int, std::vector<int64_t>> cache;
@@ -169,6 +174,19 @@ int64_t random_of_kind(Rng & r, Kind k)
     case K_F32: return r.below(2) ? (int64_t)(r.next() & 0xffffffffu) : f2bits((float)((double)r.logu(48) / 65536.0));
     case K_F64: return r.below(2) ? (int64_t)r.next() : d2bits((double)r.logu(62) / 65536.0);
     default: return random_of_type(r, *inttype_of(k));
+    }
+  }
+bool in_domain(Kind k, int64_t x)
+  {
+  switch(k)
+    {
+    case K_FIX: return x != INT64_MIN;                       // finite or one of the two NaN sentinels
+    case K_SHIFT: return x >= INT32_MIN && x <= 63;
+    case K_ANGLE: return x >= INT32_MIN && x <= INT32_MAX;
+    case K_IDX361: return x >= 0 && x <= 360;
+    case K_IDX256: return x >= 0 && x <= 255;
+    case K_COUNT: return x >= 0 && x <= 64;
+    default: return true;                                    // integral kinds are cast to the type by the wrapper, float kinds are bit patterns
     }
   }
 int64_t related_fix(Rng & r, int64_t a)
